@@ -66,14 +66,18 @@ Section Proofs.
   Hypothesis t_eqb_spec : forall a b, t_eqb a b = true <-> a = b.
 
   (** the value of individual [i] at age [t] (given by the closed-form theorems); the trajectory of a list of ages is
-      computed age by age *)
+      computed age by age, a unique age being a list of one age ([compute_individual_trajectory] returns a tensor of
+      shape (1, n_tpts, n_features) for "the age(s)" it is given) *)
   Variable f : ID -> T -> V.
-  Definition pointwise (i : ID) (ts : list T) : list V := map (f i) ts.
+  Definition pointwise (i : ID) (a : ages T) : list V := map (f i) (atleast_1d T a).
 
   Notation estimate := (estimate ID T V id_eqb id_leb t_eqb pointwise).
   Notation group_keys := (group_keys ID T id_eqb id_leb).
   Notation ages_of := (ages_of ID T id_eqb).
   Notation count := (count ID T id_eqb t_eqb).
+  Notation pair_eqb := (pair_eqb ID T id_eqb t_eqb).
+  Notation key_eqb := (key_eqb ID T V id_eqb t_eqb).
+  Notation first_rows := (first_rows ID T V id_eqb t_eqb).
 
   Lemma id_eqb_refl a : id_eqb a a = true.
   Proof. now apply id_eqb_spec. Qed.
@@ -90,6 +94,25 @@ Section Proofs.
 
   Lemma id_eqb_false a b : a <> b -> id_eqb a b = false.
   Proof. intros H. destruct (id_eqb a b) eqn:E; [|reflexivity]. apply id_eqb_spec in E. contradiction. Qed.
+
+  Lemma pair_eqb_spec a b : pair_eqb a b = true <-> a = b.
+  Proof.
+    unfold Estimate.pair_eqb. rewrite andb_true_iff, id_eqb_spec, t_eqb_spec.
+    destruct a, b; simpl. split; [intros [-> ->]; reflexivity | intros H; injection H; auto].
+  Qed.
+
+  Lemma pair_eqb_refl a : pair_eqb a a = true.
+  Proof. now apply pair_eqb_spec. Qed.
+
+  Lemma pair_eqb_false a b : a <> b -> pair_eqb a b = false.
+  Proof. intros H. destruct (pair_eqb a b) eqn:E; [|reflexivity]. apply pair_eqb_spec in E. contradiction. Qed.
+
+  Lemma existsb_pair_In k l : existsb (pair_eqb k) l = true <-> In k l.
+  Proof.
+    rewrite existsb_exists. split.
+    - intros [y [Hy E]]. apply pair_eqb_spec in E. now subst.
+    - intros H. exists k. split; [assumption | apply pair_eqb_refl].
+  Qed.
 
   (** ---- sorted distinct keys *)
   Lemma existsb_eqb_In x l : existsb (id_eqb x) l = true <-> In x l.
@@ -141,35 +164,56 @@ Section Proofs.
   Qed.
 
   (** ---- frames *)
-  Lemma zip_rows_pointwise i ts :
-    zip_rows ID T V i ts (pointwise i ts) = Some (map (fun t => (i, t, f i t)) ts).
-  Proof. unfold pointwise. induction ts as [|t ts IH]; simpl; [reflexivity|]. now rewrite IH. Qed.
+  Lemma zip_rows_map i ts :
+    zip_rows ID T V i ts (map (f i) ts) = Some (map (fun t => (i, t, f i t)) ts).
+  Proof. induction ts as [|t ts IH]; simpl; [reflexivity|]. now rewrite IH. Qed.
 
   Lemma frame_pointwise req :
-    frame ID T V pointwise req = Some (flat_map (fun r => map (fun t => (fst r, t, f (fst r) t)) (snd r)) req).
+    frame ID T V pointwise req =
+    Some (flat_map (fun r => map (fun t => (fst r, t, f (fst r) t)) (atleast_1d T (snd r))) req).
   Proof.
     induction req as [|r req IH]; simpl; [reflexivity|].
-    now rewrite zip_rows_pointwise, IH.
+    unfold pointwise at 1. now rewrite zip_rows_map, IH.
   Qed.
 
-  (** ---- dict requests *)
+  (** ---- dict requests (each value a unique age or a list of ages) *)
   Lemma estimate_dict req to_dataframe : to_dataframe = None \/ to_dataframe = Some false ->
-    estimate (InDict req) to_dataframe = OutDict (map (fun r => (fst r, map (f (fst r)) (snd r))) req).
+    estimate (InDict req) to_dataframe =
+    OutDict (map (fun r => (fst r, map (f (fst r)) (atleast_1d T (snd r)))) req).
   Proof. intros [-> | ->]; reflexivity. Qed.
 
   Lemma estimate_dict_frame req :
     estimate (InDict req) (Some true) =
-    OutFrame (flat_map (fun r => map (fun t => (fst r, t, Some (f (fst r) t))) (snd r)) req).
+    OutFrame (flat_map (fun r => map (fun t => (fst r, t, Some (f (fst r) t))) (atleast_1d T (snd r))) req).
   Proof.
     unfold Estimate.estimate. simpl. rewrite frame_pointwise. f_equal.
     rewrite map_flat_map. apply flat_map_ext_in. intros r _. now rewrite map_map.
   Qed.
 
+  (** a unique age behaves as the list of that one age, whatever the output form *)
+  Lemma estimate_dict_scalar req1 i t req2 to_dataframe :
+    estimate (InDict (req1 ++ (i, One t) :: req2)) to_dataframe =
+    estimate (InDict (req1 ++ (i, Many [t]) :: req2)) to_dataframe.
+  Proof.
+    destruct to_dataframe as [[|]|].
+    - now rewrite !estimate_dict_frame, !flat_map_app.
+    - rewrite !estimate_dict by now right. now rewrite !map_app.
+    - rewrite !estimate_dict by now left. now rewrite !map_app.
+  Qed.
+
+  Lemma estimate_dict_scalar_full req1 i t req2 to_dataframe :
+    estimate (InDict (req1 ++ (i, One t) :: req2)) to_dataframe =
+    estimate (InDict (req1 ++ (i, Many [t]) :: req2)) to_dataframe
+    /\ estimate (InDict [(i, One t)]) (Some true) = OutFrame [(i, t, Some (f i t))]
+    /\ estimate (InDict [(i, One t)]) None = OutDict [(i, [f i t])].
+  Proof. split; [apply estimate_dict_scalar | split; reflexivity]. Qed.
+
   (** ---- MultiIndex requests *)
   Lemma ages_filter i0 t0 ix :
     filter (t_eqb t0) (ages_of i0 ix) = repeat t0 (count (i0, t0) ix).
   Proof.
-    unfold Estimate.ages_of, Estimate.count. induction ix as [|[i t] ix IH]; simpl; [reflexivity|].
+    unfold Estimate.ages_of, Estimate.count, Estimate.pair_eqb.
+    induction ix as [|[i t] ix IH]; simpl; [reflexivity|].
     rewrite (id_eqb_sym i0 i).
     destruct (id_eqb i i0) eqn:Ei; simpl.
     - destruct (t_eqb t0 t) eqn:Et; simpl.
@@ -181,27 +225,9 @@ Section Proofs.
   Lemma count_pos k ix : In k ix -> exists n, count k ix = S n.
   Proof.
     intros H. unfold Estimate.count.
-    assert (Hin : In k (filter (fun r => id_eqb (fst k) (fst r) && t_eqb (snd k) (snd r)) ix)).
-    { apply filter_In. split; [assumption|]. now rewrite id_eqb_refl, t_eqb_refl. }
+    assert (Hin : In k (filter (pair_eqb k) ix)).
+    { apply filter_In. split; [assumption | apply pair_eqb_refl]. }
     destruct (filter _ ix); [contradiction|]. simpl. eauto.
-  Qed.
-
-  Lemma count_NoDup k ix : NoDup ix -> In k ix -> count k ix = 1.
-  Proof.
-    unfold Estimate.count. induction 1 as [|a ix Ha Hnd IH]; simpl; intros Hin; [contradiction|].
-    destruct (id_eqb (fst k) (fst a) && t_eqb (snd k) (snd a)) eqn:E.
-    - apply andb_true_iff in E. destruct E as [E1 E2].
-      apply id_eqb_spec in E1. apply t_eqb_spec in E2.
-      assert (k = a) by (destruct k, a; simpl in *; congruence). subst a. simpl. f_equal.
-      assert (Hnil : filter (fun r => id_eqb (fst k) (fst r) && t_eqb (snd k) (snd r)) ix = []).
-      { clear IH Hnd Hin. induction ix as [|b ix IHix]; simpl; [reflexivity|].
-        destruct (id_eqb (fst k) (fst b) && t_eqb (snd k) (snd b)) eqn:Eb.
-        - apply andb_true_iff in Eb. destruct Eb as [B1 B2].
-          apply id_eqb_spec in B1. apply t_eqb_spec in B2.
-          exfalso. apply Ha. left. destruct k, b; simpl in *; congruence.
-        - apply IHix. intros H. apply Ha. now right. }
-      now rewrite Hnil.
-    - destruct Hin as [->|Hin]; [now rewrite id_eqb_refl, t_eqb_refl in E|]. now apply IH.
   Qed.
 
   Lemma frame_group ix :
@@ -209,53 +235,81 @@ Section Proofs.
     Some (flat_map (fun i => map (fun t => (i, t, f i t)) (ages_of i ix)) (group_keys ix)).
   Proof. rewrite frame_pointwise. unfold Estimate.group. now rewrite flat_map_map. Qed.
 
+  (** the concatenated frame holds the pair of a requested row as many times as the request does *)
   Lemma matches_of_key i0 t0 ix : In (i0, t0) ix ->
-    filter (key_eqb ID T V id_eqb t_eqb (i0, t0))
+    filter (key_eqb (i0, t0))
            (flat_map (fun i => map (fun t => (i, t, f i t)) (ages_of i ix)) (group_keys ix))
     = repeat (i0, t0, f i0 t0) (count (i0, t0) ix).
   Proof.
     intros Hin. rewrite filter_flat_map.
     rewrite (flat_map_single _ _ i0).
-    - rewrite filter_map_comm. unfold key_eqb. simpl. rewrite id_eqb_refl. simpl.
+    - rewrite filter_map_comm. unfold Estimate.key_eqb, Estimate.pair_eqb. simpl. rewrite id_eqb_refl. simpl.
       rewrite ages_filter. now rewrite map_repeat'.
     - apply NoDup_group_keys.
     - apply In_group_keys. apply in_map_iff. now exists (i0, t0).
-    - intros i _ Hne. rewrite filter_map_comm. unfold key_eqb. simpl.
+    - intros i _ Hne. rewrite filter_map_comm. unfold Estimate.key_eqb, Estimate.pair_eqb. simpl.
       rewrite (id_eqb_false i0 i) by congruence. simpl.
       clear. induction (ages_of i ix); simpl; auto.
   Qed.
 
-  (** every requested row comes back once per occurrence of its (ID, TIME) pair in the request *)
-  Lemma estimate_index_general ix to_dataframe : to_dataframe = None \/ to_dataframe = Some true ->
-    estimate (InIndex ix) to_dataframe =
-    OutFrame (flat_map (fun k => repeat (fst k, snd k, Some (f (fst k) (snd k))) (count k ix)) ix).
+  (** [~index.duplicated()]: of the rows carrying a pair not seen before, exactly the first one is kept *)
+  Lemma first_rows_filter k seen fr :
+    filter (key_eqb k) (first_rows seen fr) =
+    if existsb (pair_eqb k) seen then [] else firstn 1 (filter (key_eqb k) fr).
+  Proof.
+    revert seen. induction fr as [|r fr IH]; intros seen.
+    - simpl. now destruct (existsb (pair_eqb k) seen).
+    - cbn [Estimate.first_rows filter]. change (key_eqb k r) with (pair_eqb k (fst r)).
+      destruct (existsb (pair_eqb (fst r)) seen) eqn:Er.
+      + rewrite IH. destruct (existsb (pair_eqb k) seen) eqn:Ek; [reflexivity|].
+        destruct (pair_eqb k (fst r)) eqn:E; [|reflexivity].
+        apply pair_eqb_spec in E. subst k. congruence.
+      + cbn [filter]. change (key_eqb k r) with (pair_eqb k (fst r)).
+        destruct (pair_eqb k (fst r)) eqn:E.
+        * apply pair_eqb_spec in E. subst k. rewrite IH, Er. cbn [existsb]. now rewrite pair_eqb_refl.
+        * rewrite IH. cbn [existsb]. now rewrite E.
+  Qed.
+
+  Lemma first_rows_match i0 t0 ix : In (i0, t0) ix ->
+    filter (key_eqb (i0, t0))
+           (first_rows [] (flat_map (fun i => map (fun t => (i, t, f i t)) (ages_of i ix)) (group_keys ix)))
+    = [(i0, t0, f i0 t0)].
+  Proof.
+    intros Hin. rewrite first_rows_filter. simpl. rewrite (matches_of_key i0 t0 ix Hin).
+    destruct (count_pos _ _ Hin) as [n ->]. reflexivity.
+  Qed.
+
+  (** the FULL layout statement: whatever the request (individuals interleaved, ages unsorted, pairs repeated), the frame
+      holds exactly the requested rows in the requested order, each with the value of its own (ID, TIME) *)
+  Lemma estimate_index ix to_dataframe : to_dataframe = None \/ to_dataframe = Some true ->
+    estimate (InIndex ix) to_dataframe = OutFrame (map (fun k => (fst k, snd k, Some (f (fst k) (snd k)))) ix).
   Proof.
     intros Hdf. assert (Hto : to_df ID T (InIndex ix) to_dataframe = true) by (destruct Hdf as [-> | ->]; reflexivity).
     unfold Estimate.estimate. rewrite Hto. simpl. rewrite frame_group. f_equal.
+    unfold join. rewrite <- flat_map_singleton. apply flat_map_ext_in. intros [i0 t0] Hin.
+    now rewrite (first_rows_match i0 t0 ix Hin).
+  Qed.
+
+  (** read row by row: as many rows as requested, the n-th row is the n-th requested pair with its own value *)
+  Lemma estimate_index_rowwise ix to_dataframe : to_dataframe = None \/ to_dataframe = Some true ->
+    exists rows, estimate (InIndex ix) to_dataframe = OutFrame rows /\ length rows = length ix /\
+      forall n i t, nth_error ix n = Some (i, t) -> nth_error rows n = Some (i, t, Some (f i t)).
+  Proof.
+    intros Hdf. eexists. split; [now apply estimate_index|]. split; [apply map_length|].
+    intros n i t H. now rewrite nth_error_map, H.
+  Qed.
+
+  (** why the de-duplication is there: joined with the concatenated frame itself, a requested row would come back once
+      per occurrence of its pair in the request *)
+  Lemma join_without_first_rows ix fr :
+    frame ID T V pointwise (group ID T id_eqb id_leb ix) = Some fr ->
+    join ID T V id_eqb t_eqb ix fr =
+    flat_map (fun k => repeat (fst k, snd k, Some (f (fst k) (snd k))) (count k ix)) ix.
+  Proof.
+    rewrite frame_group. intros H. injection H as <-.
     unfold join. apply flat_map_ext_in. intros [i0 t0] Hin.
     rewrite (matches_of_key i0 t0 ix Hin).
     destruct (count_pos _ _ Hin) as [n ->]. simpl. f_equal. now rewrite map_repeat'.
-  Qed.
-
-  Lemma estimate_index ix to_dataframe : to_dataframe = None \/ to_dataframe = Some true ->
-    NoDup ix ->
-    estimate (InIndex ix) to_dataframe = OutFrame (map (fun k => (fst k, snd k, Some (f (fst k) (snd k)))) ix).
-  Proof.
-    intros Hdf Hnd. rewrite estimate_index_general by assumption. f_equal.
-    rewrite <- flat_map_singleton. apply flat_map_ext_in. intros k Hin.
-    now rewrite (count_NoDup k ix Hnd Hin).
-  Qed.
-
-  (** number of returned rows in general: sum over requested rows of the multiplicity of their pair *)
-  Lemma estimate_index_length ix rows :
-    estimate (InIndex ix) None = OutFrame rows ->
-    length rows = list_sum (map (fun k => count k ix) ix).
-  Proof.
-    rewrite estimate_index_general by now left. intros H. injection H as <-.
-    assert (G : forall l, length (flat_map (fun k => repeat (fst k, snd k, Some (f (fst k) (snd k))) (count k ix)) l)
-                          = list_sum (map (fun k => count k ix) l)).
-    { induction l as [|k l IH]; simpl; [reflexivity|]. now rewrite app_length, repeat_length, IH. }
-    apply G.
   Qed.
 
   (** MultiIndex request, dict output: one entry per requested individual (sorted, distinct), ages in request order *)
